@@ -273,3 +273,16 @@ Fixpoint run_shapes_ok (vs ir : bool) (ml mi : nat) (s : st) (cs : list call) (s
   end.
 Definition t3case_ok (c : wt3case) : bool :=
   match c with TC3 ml mi vs ir calls shs => run_shapes_ok vs ir ml mi init calls shs end.
+
+(* The set-only call &= exists on Set / TreeSet only, where every stored value
+   is 0.  (The C flavour rebuilds the set from the kept keys, which would reset
+   the values of a mapping.) *)
+Definition is_iand (c : call) : bool := match c with CIand _ => true | _ => false end.
+Definition zero_values (c : call) : bool :=
+  match c with
+  | CSet _ v | CInsert _ v | CSetdefault _ v => v =? 0
+  | CUpdate l => forallb (fun x => snd (of_kv x) =? 0) l
+  | _ => true
+  end.
+Definition set_calls_ok (calls : list call) : bool :=
+  negb (existsb is_iand calls) || forallb zero_values calls.
